@@ -90,8 +90,10 @@ func newCLIMember(rng *rand.Rand, base, name string, ids []desync.ChunkID, data 
 	}
 	if m.kind == "http" {
 		m.failing = !writable && rng.Intn(4) == 0
-		// the server passes stored bytes through unverified; the client is the one that verifies
-		ss, err := desync.NewLocalStore(m.dir, desync.StoreOptions{SkipVerify: true})
+		// the server passes stored bytes through unverified and the client is the one that verifies (the chunk server's
+		// default), or the server verifies what it reads (--skip-verify-read=false) and answers for a damaged chunk
+		// itself: a failure either way, never "not here"
+		ss, err := desync.NewLocalStore(m.dir, desync.StoreOptions{SkipVerify: writable || rng.Intn(2) == 0})
 		dsu.Must(err)
 		h := desync.NewHTTPHandler(ss, writable, false, desync.Converters{desync.Compressor{}}, "")
 		m.srv = httptest.NewServer(http.HandlerFunc(func(w http.ResponseWriter, r *http.Request) {
@@ -205,16 +207,38 @@ func cliChain(c *harness.Ctx) {
 		shape = append(shape, strings.Join(ks, "|"))
 	}
 	var cache *cliMember
+	cacheUncompressed := false
+	var configArgs []string
 	repair := true
 	if rng.Intn(3) != 0 {
 		cache = newCLIMember(rng, base, "cache", ids, data, []int{0, 40, 70}[rng.Intn(3)], true)
 		defer cache.close()
 		args = append(args, "-c", cache.loc)
+		if cache.kind == "local" && rng.Intn(3) == 0 {
+			// the cache directory is configured (config file, there is no flag) to hold chunks uncompressed while every
+			// store delivers compressed ones: what the cache is filled with must be what it serves from next time
+			cacheUncompressed = true
+			for i := range ids {
+				os.Remove(chunkPath(cache.dir, ids[i]))
+				raw := strings.TrimSuffix(chunkPath(cache.dir, ids[i]), ".cacnk")
+				switch cache.content[i] {
+				case "valid":
+					os.MkdirAll(filepath.Dir(raw), 0755)
+					dsu.Must(os.WriteFile(raw, data[i], 0644))
+				case "invalid":
+					os.MkdirAll(filepath.Dir(raw), 0755)
+					dsu.Must(os.WriteFile(raw, []byte(fmt.Sprintf("not the chunk %d", i)), 0644))
+				}
+			}
+			cfg := filepath.Join(base, "config.json")
+			dsu.Must(os.WriteFile(cfg, []byte(fmt.Sprintf(`{"store-options": {%q: {"uncompressed": true}}}`, cache.loc)), 0644))
+			configArgs = []string{"--config", cfg}
+		}
 		if rng.Intn(4) == 0 {
 			repair = false
 			args = append(args, "--cache-repair=false")
 		}
-		shape = append(shape, fmt.Sprintf("cache:%s,repair=%v", cache.kind, repair))
+		shape = append(shape, fmt.Sprintf("cache:%s,repair=%v,uncompressed=%v", cache.kind, repair, cacheUncompressed))
 	}
 	cmdName := []string{"cat", "extract"}[rng.Intn(2)]
 	c.Info("cli chain %s %s chunks=%d fill=%d", cmdName, strings.Join(shape, " ; "), n, fill)
@@ -272,7 +296,7 @@ func cliChain(c *harness.Ctx) {
 	// error-retry 0, or 1 and more with a tiny interval (a chunk that simply is not there must stay "missing" however
 	// often the store is asked again)
 	retry := []string{"0", "0", "1", "3"}[rng.Intn(4)]
-	full := append([]string{cmdName, "-n", "1", "-e", retry, "-b", "1ms"}, args...)
+	full := append(append(append([]string{}, configArgs...), cmdName, "-n", "1", "-e", retry, "-b", "1ms"), args...)
 	out := filepath.Join(base, "out")
 	if cmdName == "cat" {
 		full = append(full, idxPath)
@@ -313,7 +337,9 @@ func cliChain(c *harness.Ctx) {
 			for i := range ids {
 				raw, err := os.ReadFile(chunkPath(cache.dir, ids[i]))
 				var plain []byte
-				if err == nil {
+				if cacheUncompressed {
+					plain, err = os.ReadFile(strings.TrimSuffix(chunkPath(cache.dir, ids[i]), ".cacnk"))
+				} else if err == nil {
 					plain, err = desync.Decompress(nil, raw)
 				}
 				if err != nil || dsu.Sum(plain) != ids[i] {
